@@ -1,8 +1,8 @@
 (* C07 -- obligations over the access profiles and guards REGENERATED from /repo on this run (Gen_FilterTotal.v). *)
 From Coq Require Import List Bool String.
 From RG.Base Require Import Outcome.
-From RG.Filters Require Import FilterIR Totality.
-From RGW Require Import Gen_FilterTotal.
+From RG.Filters Require Import FilterIR Totality TotalityExt.
+From RGW Require Import Gen_FilterTotal Gen_FilterTotal2.
 Import ListNotations.
 Local Open Scope string_scope.
 
@@ -15,7 +15,10 @@ Lemma absent_definition_ok :
   mem "nil" gen_absent_checks && mem "empty-slice" gen_absent_checks && mem "typed-nil" gen_absent_checks && gen_has_known_size_ok = true.
 Proof. vm_compute. reflexivity. Qed.
 
-Lemma renderer_ok : (gen_render_skips_typed_nil || gen_nodetext_guarded) && gen_render_text_via_nodetext = true.
+(* renderMessage: typed nils are dropped (or nodeText is guarded), the nil interface is recognised before reflect is asked, the
+   text is read through nodeText only *)
+Lemma renderer_ok :
+  render_safe gen_render_reflects gen_render_nil_iface_first gen_render_drops_typed_nil gen_nodetext_guarded && gen_render_text_via_nodetext = true.
 Proof. vm_compute. reflexivity. Qed.
 
 Lemma report_builder_ok : gen_location_guarded && gen_suggestion_from_report_node && gen_report_group_from_rule = true.
@@ -30,7 +33,8 @@ Proof.
   pose proof all_closures_safe as H. rewrite forallb_forall in H. exact (H (name, ac) Hin).
 Qed.
 
-Lemma render_total_gen s : render_capture gen_render_skips_typed_nil gen_nodetext_guarded s = Ok tt.
+Lemma render_total_gen s :
+  render_capture gen_render_reflects gen_render_nil_iface_first gen_render_drops_typed_nil gen_nodetext_guarded s = Ok tt.
 Proof.
   apply render_total. pose proof renderer_ok as H. apply andb_prop in H. tauto.
 Qed.
@@ -47,10 +51,69 @@ Proof.
 Qed.
 
 Lemma render_total_on_gen readable s c :
-  render_capture_on gen_render_skips_typed_nil gen_nodetext_guarded gen_text_print_handled gen_text_print_recursive readable s c = Ok tt.
+  render_capture_on gen_render_reflects gen_render_nil_iface_first gen_render_drops_typed_nil gen_nodetext_guarded
+    gen_text_print_handled gen_text_print_recursive readable s c = Ok tt.
 Proof.
   apply render_total_on; [|exact text_fallback_ok]. pose proof renderer_ok as H. apply andb_prop in H. tauto.
 Qed.
 
 Lemma location_guarded : gen_location_guarded = true.
 Proof. pose proof report_builder_ok as H. repeat (apply andb_prop in H; destruct H as [H ?]). exact H. Qed.
+
+(* ------------------------------------------------------------------ mechanisms outside the closures (Gen_FilterTotal2.v) *)
+(* handleMatch drops a match whose root is absent before anything reads its position; nodeText slices only ordered extents *)
+Lemma root_guarded : gen_match_root_guarded = true.
+Proof. vm_compute. reflexivity. Qed.
+
+Lemma nodetext_ordered : gen_nodetext_ordered = true.
+Proof. vm_compute. reflexivity. Qed.
+
+Lemma delivered_wellformed root loc n :
+  deliver gen_match_root_guarded gen_location_guarded root loc = Some n -> absent n = false /\ node_pos n = Ok tt.
+Proof. rewrite root_guarded, location_guarded. apply deliver_wellformed. Qed.
+
+(* hasKnownSize makes every test and recurses into arrays and structs *)
+Lemma known_size_ok : ks_ok gen_known_size = true.
+Proof. vm_compute. reflexivity. Qed.
+
+Lemma known_size_sound_gen t : wfb t = true -> known_size gen_known_size t = true -> sizeof t = Ok tt.
+Proof. apply known_size_sound. exact known_size_ok. Qed.
+
+(* findSinkType: every literal-type case that reads kv.Key tests kv first *)
+Lemma sinktype_kv_ok : forallb snd gen_sinktype_kv_cases && Nat.leb 2 (List.length gen_sinktype_kv_cases) = true.
+Proof. vm_compute. reflexivity. Qed.
+
+(* the rule loop's matcher and Contains()'s matcher run on states from two different allocations *)
+Lemma matcher_states_distinct : states_distinct gen_main_state_origin gen_sub_state_origin = true.
+Proof. vm_compute. reflexivity. Qed.
+
+Lemma list_walk_total steps n cb st rest : st gen_main_state_origin = n :: rest ->
+  walk steps gen_main_state_origin gen_sub_state_origin n cb st = Ok tt.
+Proof. apply walk_total_distinct. apply states_distinct_neq. exact matcher_states_distinct. Qed.
+
+(* xtypes.typeIdentical: unaliases inside the recursion, descends only through itself, knows every go/types constructor,
+   is the only type switch of the file *)
+Lemma xtypes_recursion_ok :
+  gen_xtypes_unaliased_in_recursion && descents_ok "typeIdentical" gen_xtypes_descents && cases_complete gen_xtypes_cases &&
+  Nat.eqb (List.length gen_xtypes_other_switches) 0 && Nat.leb 1 (List.length gen_xtypes_descents) = true.
+Proof. vm_compute. reflexivity. Qed.
+
+Lemma xtypes_unaliased : gen_xtypes_unaliased_in_recursion = true.
+Proof. pose proof xtypes_recursion_ok as H. repeat (apply andb_prop in H; destruct H as [H ?]). exact H. Qed.
+
+Lemma type_recursion_total t : heads_in gen_xtypes_cases t = true ->
+  traverse gen_xtypes_unaliased_in_recursion gen_xtypes_default_panics gen_xtypes_cases t = Ok tt.
+Proof. rewrite xtypes_unaliased. apply traverse_total. Qed.
+
+(* typematch.matchIdentical: unaliases inside the recursion, descends only through itself, guards its decremented indexes *)
+Lemma typematch_recursion_ok :
+  gen_typematch_unaliased_in_recursion && descents_ok "matchIdentical" gen_typematch_descents &&
+  indexes_guarded gen_typematch_decremented_indexes && Nat.leb 1 (List.length gen_typematch_decremented_indexes) &&
+  Nat.leb 1 (List.length gen_typematch_descents) = true.
+Proof. vm_compute. reflexivity. Qed.
+
+Lemma typematch_indexes_guarded : indexes_guarded gen_typematch_decremented_indexes = true.
+Proof. pose proof typematch_recursion_ok as H. repeat (apply andb_prop in H; destruct H as [H ?]). assumption. Qed.
+
+Lemma variadic_test_total params : exists b, variadic_mismatch (indexes_guarded gen_typematch_decremented_indexes) params = Ok b.
+Proof. rewrite typematch_indexes_guarded. apply variadic_mismatch_total. Qed.
